@@ -42,7 +42,7 @@ func (o OptSet) Symbolic() string {
 	s := append([]string{"thriftgo"}, o.Pre...)
 	s = append(s, "-o", "<out>", "-g", o.gArg())
 	if o.Plugin {
-		s = append(s, "-p", "rec=<c07plugin>")
+		s = append(s, "--plugin-time-limit", "0", "-p", "rec=<c07plugin>")
 	}
 	return strings.Join(append(s, "<idl>/<main>.thrift"), " ")
 }
@@ -126,23 +126,33 @@ func runOne(t Tools, o OptSet, idl, cwd, out string, g int) RunResult {
 	args = append(args, "-o", out, "-g", o.gArg())
 	rec := ""
 	if o.Plugin {
-		args = append(args, "-p", "rec="+t.Plugin)
+		args = append(args, "--plugin-time-limit", "0", "-p", "rec="+t.Plugin) // no time limit: a loaded machine must not look like a difference
 		rec = filepath.Join(cwd, "plugin-record.txt")
 		os.Remove(rec)
 	}
 	args = append(args, idl)
-	cmd := exec.Command(t.Thriftgo, args...)
-	cmd.Dir = cwd
-	cmd.Env = append(os.Environ(), fmt.Sprintf("GOMAXPROCS=%d", g), "C07_RECORD="+rec)
 	var eb bytes.Buffer
-	cmd.Stderr = &eb
-	cmd.Stdout = &eb
-	err := cmd.Run()
+	var err error
+	for attempt := 0; attempt < 4; attempt++ {
+		cmd := exec.Command(t.Thriftgo, args...)
+		cmd.Dir = cwd
+		cmd.Env = append(os.Environ(), fmt.Sprintf("GOMAXPROCS=%d", g), "C07_RECORD="+rec)
+		eb.Reset()
+		cmd.Stderr = &eb
+		cmd.Stdout = &eb
+		err = cmd.Run()
+		if _, isExit := err.(*exec.ExitError); err == nil || isExit {
+			break
+		}
+		time.Sleep(500 * time.Millisecond) // the process could not be started (machine out of resources): not a verdict
+	}
 	res := RunResult{Gmp: g, Stderr: eb.String()}
 	if err != nil {
 		res.Exit = 1
 		if ee, ok := err.(*exec.ExitError); ok {
 			res.Exit = ee.ExitCode()
+		} else {
+			panic(fmt.Sprintf("cannot execute %s: %v", t.Thriftgo, err))
 		}
 	}
 	od := out
